@@ -1,5 +1,6 @@
 """C06 - evaluating new data reproduces the training encoding (DESIGN.md 3, C06)."""
 import itertools
+import re
 
 import numpy as np
 import pandas as pd
@@ -122,7 +123,7 @@ def pool(tier):
                 out.append(f"y ~ ({a} | g) + {c}")
         for a in NUMT[:11]:
             for b in NUMT[:11]:
-                inner = b.replace("x", "z") if "(" in b else b
+                inner = re.sub(r"\bx\b", "z", b)
                 out.append(f"y ~ {a} + {inner}")
     return list(dict.fromkeys(out))
 
